@@ -16,7 +16,8 @@ run_one() {
   if git -C "$wt" apply "$PWD/$d/patch.diff"; then
     out=$(VERIF_REPO="$wt" VERIF_SCRATCH="$base/scratch-$name" VERIF_BUDGET="${VERIF_BUDGET:-40}" ./check "$prop" quick 2>&1); rc=$?
     cls=$(echo "$out" | grep -o "class=[^ ]*" | head -1)
-    if [ $rc -eq 1 ]; then echo "CAUGHT  $name by $prop $cls"; else echo "MISSED  $name by $prop (exit $rc) $(echo "$out" | grep -E 'HARNESS' | head -1 | cut -c1-200)"; fi
+    exp=$(python3 -c "import json;print(json.load(open('$d/meta.json')).get('expected',''))")
+    if [ $rc -eq 1 ]; then echo "CAUGHT  $name by $prop $cls"; elif [ "$exp" = missed ] && [ $rc -eq 0 ]; then echo "KNOWN-MISS  $name by $prop (documented limit, see meta.json)"; else echo "MISSED  $name by $prop (exit $rc) $(echo "$out" | grep -E 'HARNESS' | head -1 | cut -c1-200)"; fi
   else echo "$name: patch does not apply"; fi
   git -C /repo worktree remove --force "$wt" >/dev/null 2>&1; rm -rf "$base/scratch-$name"
   rm -f replays/${prop}-*.json
